@@ -701,3 +701,180 @@ Definition run_segframe_real (g : seg) (fa : fn_arg) (sn : option Z) : val :=
 Definition run_segframe (g : seg) (fa : fn_arg) (sn : option Z) : val :=
   vres (fun r => VL [VZ (q_seg r); vz_list (q_frames r); VZ (q_segment r); src_val (q_src r)])
        (rsf_from_segmentation g fa sn).
+
+(* ==== session 7: observer contexts of a key object selection, get_observer_contexts, and the
+   arguments that KeyObjectSelectionDocument.__init__ only records ==========================
+   ko/content.py KeyObjectSelection.__init__ (observer_person_context, observer_device_context),
+                 KeyObjectSelection.get_observer_contexts
+   sr/templates.py ObserverContext (items: the CODE item 'Observer Type' then the identifying
+                 attributes), Person / DeviceObserverIdentifyingAttributes.from_sequence
+   ko/sop.py     KeyObjectSelectionDocument.__init__ (institution_name,
+                 institutional_department_name, requested_procedures)
+   The VALUE of the 'Observer Type' item is the optional attribute 30 of the item: [0] Person,
+   [1] Device (the harness decodes it from ConceptCodeSequence). *)
+Definition k_value : Z := 30.
+Definition t_observer_type : Z := 121005.
+Definition rel_obs_context : Z := 5.                       (* HAS OBS CONTEXT *)
+
+Record octx := OCtx { o_type : Z; o_attrs : list item }.
+Definition observer_type_item (ty : Z) : item :=
+  Item CODE t_observer_type rel_obs_context None [(k_value, [ty])] [].
+Definition octx_items (o : octx) : list item := observer_type_item (o_type o) :: o_attrs o.
+Definition opt_items (o : option octx) : list item :=
+  match o with Some c => octx_items c | None => [] end.
+Definition wrong_type (o : option octx) (ty : Z) : bool :=
+  match o with Some c => negb (o_type c =? ty) | None => false end.
+
+Definition ko_content_ctx (title : Z) (tx : list Z) (person device : option octx) (descr : option Z)
+           (refs : list (Z * Z * bool)) : res item :=
+  if wrong_type person 0 then Err "ValueError"
+  else if wrong_type device 1 then Err "ValueError"
+  else match refs with
+       | [] => Err "ValueError"
+       | _ => Ok (Item CONTAINER title 0 None ((1, [2010]) :: name_entry_attrs tx)
+                    (opt_items person ++ opt_items device ++
+                     (match descr with Some _ => [Item TEXT 113012 1 None [] []] | None => [] end) ++
+                     map ko_ref_item refs))
+       end.
+
+(* ---- get_observer_contexts ---- *)
+Definition is_observer_type (it : item) : bool := i_tag it =? t_observer_type.
+Definition observer_value (it : item) : option Z :=
+  match attr_get k_value (i_attrs it) with Some [v] => Some v | _ => None end.
+
+(* matches = [(i, item) for i, item in enumerate(ContentSequence, 1) if item.name == Observer Type] *)
+Fixpoint positions (i : Z) (l : list item) : list (Z * item) :=
+  match l with
+  | [] => []
+  | it :: r => (if is_observer_type it then [(i, it)] else []) ++ positions (i + 1) r
+  end.
+
+(* l[a:b] for 0 <= a and (0 <= b or b = -1) *)
+Definition py_slice {A : Type} (l : list A) (a b : Z) : list A :=
+  let n := Z.of_nat (length l) in
+  let b' := if b <? 0 then Z.max 0 (n + b) else b in
+  skipn (Z.to_nat a) (firstn (Z.to_nat b') l).
+
+(* attr_codes of the two from_sequence functions, in constructor order (required one first).
+   113876 'Device Role in Procedure' is listed since /repo 4fd7c6c (finding D119: it used to be
+   dropped by DeviceObserverIdentifyingAttributes.from_sequence). *)
+Definition t_device_role : Z := 113876.
+Definition person_attr_tags : list Z := [121008; 128774; 121009; 121010; 121011].
+Definition device_attr_tags : list Z := [121012; 121013; 121014; 121015; 121016; 121017; t_device_role].
+
+Definition has_tag (t : Z) (sl : list item) : bool := existsb (fun it => i_tag it =? t) sl.
+Definition recognised (canon : list Z) (sl : list item) : list Z :=
+  filter (fun t => has_tag t sl) canon.
+(* X.from_sequence(slice) then the constructor: names of the rebuilt identifying attributes;
+   TypeError when the required argument is missing *)
+Definition attrs_from_sequence (canon : list Z) (sl : list item) : res (list Z) :=
+  match canon with
+  | [] => Ok []
+  | req :: _ => if has_tag req sl then Ok (recognised canon sl) else Err "TypeError"
+  end.
+
+(* one returned context: observer type, names of its identifying attributes *)
+Definition ctx_result := (Z * list Z)%type.
+
+Fixpoint observer_loop (kids : list item) (flt : option Z) (ms : list (Z * item))
+  : res (list ctx_result) :=
+  match ms with
+  | [] => Ok []
+  | (index, it) :: rest =>
+      match observer_value it with
+      | None => Err "AttributeError"
+      | Some v =>
+          if match flt with Some f => negb (v =? f) | None => false end
+          then observer_loop kids flt rest
+          else
+            let next := match rest with (j, _) :: _ => j | [] => -1 end in
+            let sl := py_slice kids index next in
+            if v =? 1
+            then bind (attrs_from_sequence device_attr_tags sl) (fun a =>
+                 bind (observer_loop kids flt rest) (fun r => Ok ((1, a) :: r)))
+            else if v =? 0
+            then bind (attrs_from_sequence person_attr_tags sl) (fun a =>
+                 bind (observer_loop kids flt rest) (fun r => Ok ((0, a) :: r)))
+            else Err "ValueError"
+      end
+  end.
+
+Definition ko_observer_contexts (flt : option Z) (root : item) : res (list ctx_result) :=
+  observer_loop (i_kids root) flt (positions 1 (i_kids root)).
+
+(* ---- KeyObjectSelectionDocument.__init__ with the arguments it only records ---- *)
+Definition ko_record_extras (x : extras) : recorded :=
+  Recorded (x_institution x)
+           (match x_institution x with Some _ => x_department x | None => None end)
+           None                                  (* no PerformedProcedureCodeSequence in a KO document *)
+           (x_requests x).
+Definition set_recorded_doc (d : doc) (w : recorded) : doc :=
+  Doc (d_cls d) (d_content d) (d_current d) (d_other d) (d_pred d)
+      (d_complete d) (d_verified d) (d_final d) (d_observer d) w.
+Definition ko_init_x (ev : list evd) (ts_ok : bool) (x : extras) (root : item) : res doc :=
+  bind (ko_init ev ts_ok root) (fun d => Ok (set_recorded_doc d (ko_record_extras x))).
+
+Definition ctxs_val (r : res (list ctx_result)) : val :=
+  vres (fun l => VL (map (fun c : ctx_result => VL [VZ (fst c); vz_list (snd c)]) l)) r.
+
+(* build a KO document with observer contexts and recorded arguments, (write it and parse it with
+   KeyObjectSelectionDocument.from_dataset,) content, evidence, recorded attributes and
+   get_observer_contexts for every filter asked *)
+Definition run_ko_ctx (ev : list evd) (ts_ok : bool) (title : Z) (tx : list Z)
+           (person device : option octx) (descr : option Z) (refs : list (Z * Z * bool))
+           (x : extras) (parse : bool) (flts : list (option Z)) : val :=
+  vres (fun d => VL [item_val (d_content d); refs_val (d_current d); refs_val (d_other d);
+                     VL [vopt VZ (w_institution (d_extras d)); vopt VZ (w_department (d_extras d));
+                         vopt vz_list (w_codes (d_extras d)); vopt vz_list (w_requests (d_extras d))];
+                     VL (map (fun f => ctxs_val (ko_observer_contexts f (d_content d))) flts)])
+       (bind (bind (ko_content_ctx title tx person device descr refs) (ko_init_x ev ts_ok x))
+             (fun d => if parse then ko_from_dataset true d else Ok d)).
+
+(* ---- the document's own study and patient: inherited from evidence[0] ---------------------------
+   _SR.__init__ / KeyObjectSelectionDocument.__init__ hand evidence[0].StudyInstanceUID, PatientID,
+   PatientName, StudyID, AccessionNumber, ... to SOPClass.__init__ (and _SR copies the patient and
+   study modules of evidence[0]).  The harness gives every supplied record of study s the patient,
+   study id and accession number numbered s, so all of them are modelled by the study number of
+   the FIRST supplied record - referenced or not, duplicate or not. *)
+Definition first_study (ev : list evd) : res Z :=
+  match ev with e :: _ => Ok (e_study e) | [] => Err "ValueError" end.
+Definition sr_identity (c : sr_class) (a : sr_args) : res Z :=
+  bind (sr_init c a) (fun _ => first_study (a_evidence a)).
+Definition ko_identity (ev : list evd) (ts_ok : bool) (root : item) : res Z :=
+  bind (ko_init ev ts_ok root) (fun _ => first_study ev).
+(* study, patient id, study id, accession number - in memory and (parse) after the file round trip *)
+Definition identity_val (parse : bool) (s : Z) : val :=
+  VL ([VL [VZ s; VZ s; VZ s; VZ s]] ++ (if parse then [VL [VZ s; VZ s; VZ s; VZ s]] else [])).
+Definition run_doc_study (c : sr_class) (a : sr_args) (parse : bool) : val :=
+  vres (identity_val parse) (sr_identity c a).
+Definition run_ko_study (ev : list evd) (ts_ok : bool) (title : Z) (tx : list Z) (descr : option Z)
+           (refs : list (Z * Z * bool)) (parse : bool) : val :=
+  vres (identity_val parse) (bind (ko_content title tx descr refs) (ko_identity ev ts_ok)).
+
+(* ---- find_content_items by NAME, coded entries of every form --------------------------------------
+   search_tree rebuilds the name of every item as CodedConcept(CodeValue | LongCodeValue |
+   URNCodeValue, scheme designator, meaning, scheme version) and compares it with the name asked
+   for (Code.__eq__): value, scheme designator and scheme version must all be equal.  What the
+   name entry of an item carries is its optional attribute 14: feature 2 = long form, 3 = URN form
+   (the harness prefixes the value accordingly, so values of different forms differ), 11..19 =
+   scheme version v1..v9.  A query name: code number, form (0 / 2 / 3), version (0 = none), and
+   whether its scheme designator is the one every generated item uses. *)
+Record qname := QName { n_code : Z; n_form : Z; n_version : Z; n_scheme : bool }.
+Definition entry_feats (it : item) : list Z :=
+  match attr_get k_name_entry (i_attrs it) with Some f => f | None => [] end.
+Definition name_form (f : list Z) : Z := if mem 2 f then 2 else if mem 3 f then 3 else 0.
+Definition name_version (f : list Z) : Z :=
+  match filter (fun x => (11 <=? x) && (x <=? 19)) f with x :: _ => x - 10 | [] => 0 end.
+Definition name_matches (n : qname) (it : item) : bool :=
+  (i_tag it =? n_code n) && (name_form (entry_feats it) =? n_form n) &&
+  (name_version (entry_feats it) =? n_version n) && n_scheme n.
+Definition matches_n (n : option qname) (q : query) (it : item) : bool :=
+  match n with
+  | None => matches q it
+  | Some nm => name_matches nm it && matches (Query None (q_vt q) (q_rel q)) it
+  end.
+Definition find_content_items_n (has_cs : bool) (n : option qname) (q : query) (recursive : bool)
+           (node : item) : res (list item) :=
+  if has_cs then Ok (search_tree recursive (matches_n n q) node) else Err "AttributeError".
+Definition run_find_name (has_cs : bool) (n : option qname) (q : query) (recursive : bool) (node : item) : val :=
+  vres (fun l => VL (map item_val l)) (find_content_items_n has_cs n q recursive node).
